@@ -40,6 +40,10 @@ def lines_pool():
     # baselines with a small back-step: baseline_to_textline gives a self-intersecting (invalid) outline for them, which the
     # assignment has to repair without losing the part of the outline that covers the baseline
     out += [[[15, 60], [80, 60], [70, 64], [105, 64]], [[15, 60], [60, 60], [50, 70], [105, 70]]]
+    # three-point baselines that are straight up to float round-off (what rotating a page forth and back leaves behind): GEOS
+    # may return the intersection of such a line with a polygon that CONTAINS it as two touching pieces
+    out += [[[15, 60], [60, 60.00000000000006], [105, 60]], [[15.000000000000002, 45.00000000000001], [60.00000000000001, 45.00000000000001], [105.00000000000001, 45.000000000000014]],
+            [[15, 59.99999999999999], [59.99999999999999, 60], [104.99999999999999, 59.99999999999999]]]
     return out
 
 
@@ -84,8 +88,11 @@ def check_assign(np, sg, layout, helpers, region_names, line_idx):
             ls = sg.LineString(b)
             placed = [l for l in r.lines if int(l.id.split('-l')[1]) - 1 == i]
             inter = rp.intersection(ls)
+            if inter.geom_type == 'MultiLineString':
+                import shapely.ops
+                inter = shapely.ops.linemerge(inter)      # pieces that merely touch are one piece
             if rp.buffer(-1e-9).contains(ls) and ls.length > 2:
-                if len(placed) != 1 or np.abs(np.asarray(placed[0].baseline) - b).max() > 1e-9:
+                if len(placed) != 1 or np.asarray(placed[0].baseline).shape != b.shape or np.abs(np.asarray(placed[0].baseline) - b).max() > 1e-9:
                     bad.append(('inside-placed-unchanged', 'baseline %d lies inside region %s but was placed as %r' % (i, r.id, [np.asarray(p.baseline).tolist() for p in placed])))
             if not rp.intersects(ls) and placed:
                 bad.append(('untouched-never-placed', 'baseline %d does not touch region %s but was placed' % (i, r.id)))
